@@ -38,6 +38,9 @@ type Case struct {
 	// Props: a property history on the columns after Align (several keys per column, re-set and removed); not
 	// combined with AlignByCallback
 	Props []gen.PropOp `json:"props,omitempty"`
+	// AppCB: an application's own render-time cell callback is registered on the table right after it is created,
+	// before any text wrapper exists (1: it reports an error for some cells, 2: it never fails): nothing to the renderer
+	AppCB int `json:"appcb,omitempty"`
 }
 
 type alignSetter struct {
@@ -83,6 +86,7 @@ type Prepared struct {
 
 func Prepare(c Case) Prepared {
 	t := gen.NewTable(c.Script.Creator)
+	gen.RegisterApp(t, c.AppCB)
 	m := &gen.Model{}
 	var early *texttable.TextTable
 	for i := 0; i < c.Bulk; i++ {
